@@ -358,26 +358,7 @@ func (p *parser) parseUnary() Expr {
 
 func (p *parser) parseQuant() Expr {
 	q := &Quant{All: p.next().v == "forall"}
-	for {
-		var names []string
-		for {
-			t := p.next()
-			if t.k != "id" {
-				panic("quantifier variable expected")
-			}
-			names = append(names, t.v)
-			if !p.accept(",") {
-				break
-			}
-		}
-		ty := p.parseType()
-		for _, n := range names {
-			q.Vars = append(q.Vars, QVar{n, ty})
-		}
-		if !p.accept(";") {
-			break
-		}
-	}
+	q.Vars = p.parseVarList(func() bool { return p.isOp("::") || p.isOp("{") })
 	for p.isOp("{") {
 		p.next()
 		var tr []Expr
@@ -393,6 +374,37 @@ func (p *parser) parseQuant() Expr {
 	p.expect("::")
 	q.Body = p.parseExpr()
 	return q
+}
+
+// parseVarList parses Go-style `a, b T, c U` until stop() holds.
+func (p *parser) parseVarList(stop func() bool) []QVar {
+	var out []QVar
+	var pending []string
+	for !stop() {
+		t := p.next()
+		if t.k != "id" {
+			panic("variable name expected, found " + t.v)
+		}
+		pending = append(pending, t.v)
+		if p.accept(",") {
+			continue
+		}
+		if stop() {
+			panic("type expected after " + t.v)
+		}
+		ty := p.parseType()
+		for _, n := range pending {
+			out = append(out, QVar{n, ty})
+		}
+		pending = nil
+		if !p.accept(",") && !p.accept(";") {
+			break
+		}
+	}
+	if len(pending) > 0 {
+		panic("type expected after " + pending[len(pending)-1])
+	}
+	return out
 }
 
 func (p *parser) parsePrimary() Expr {
@@ -711,24 +723,7 @@ func ParseSpec(pkg, file, text string) (sf *SpecFile, err error) {
 				p.next()
 				pf := &PureFunc{Name: p.next().v, Pkg: pkg}
 				p.expect("(")
-				if !p.isOp(")") {
-					for {
-						var names []string
-						for {
-							names = append(names, p.next().v)
-							if !p.accept(",") {
-								break
-							}
-						}
-						ty := p.parseType()
-						for _, n := range names {
-							pf.Params = append(pf.Params, QVar{n, ty})
-						}
-						if !p.accept(";") {
-							break
-						}
-					}
-				}
+				pf.Params = p.parseVarList(func() bool { return p.isOp(")") })
 				p.expect(")")
 				pf.Ret = p.parseType()
 				if strings.TrimSpace(body) != "" {
